@@ -1,6 +1,8 @@
 (* Properties/C01.v — univariate parser: every string of the documented language
    (Model/GrammarS.v) is accepted and means what it says.
-   Statements only; every proof is `exact` of a lemma of Proofs/SimpleParse.v.
+   Statements only; every proof is `exact` of a lemma of Proofs/SimpleParse.v (text -> terms -> dense vector),
+   Proofs/PolyFloat.v (float evaluation), Proofs/DecFloat.v (decimal reading of the float instance) or
+   Proofs/ParseFloat.v (float-level fidelity of the stored coefficients to the text, last block).
    [U : UClass] is an arbitrary pair of Unicode tables subject to [USane U]
    (no alphabetic code point is an ASCII digit or one of . ^ + -). *)
 From Coq Require Import ZArith NArith List Bool Reals Floats.
@@ -295,3 +297,122 @@ Example c01_dec2float_3_25 : dec2float 325 (-2) = (0x1.ap+1)%float.
 Proof. vm_compute. reflexivity. Qed.
 Example c01_dec2float_min_subnormal : dec2float 5 (-324) = (0x0.0000000000001p-1022)%float.
 Proof. vm_compute. reflexivity. Qed.
+
+(* ---- FLOAT instance: fidelity of the STORED coefficients to the text (Proofs/ParseFloat.v) ----
+   c01_dense_nth (any T): position k holds the source-order sum, from n0, of the coefficients of the terms of
+   power k.  For FNum: n0 = +0.0, the additions are binary64 additions, and each written coefficient is
+   (-)dec2float m e — a [dterm] (neg, m, e); [dcoef] its float, [dreal] = (-) m*10^e its exact value,
+   [dmag] = m*10^e, [dec_ok] : m = 0 or (0 < m and 2^-1022 <= m*10^e <= 2^1023); the sign is PrimFloat.opp (exact).
+   Then, if no partial sum overflows (finiteness of the partial float sums, checkable by computation:
+   c01_prefixes_finite_by_compute),
+       |B2R coeff_k - sum_i (+-) m_i 10^e_i|  <=  ((1+eps)^(t+1) - 1) * sum_i m_i 10^e_i,   eps = 2^-53, t = number of terms
+   (one factor for the correctly rounded decimal reading, c01_dec2float_rel_error, and t for the additions from +0.0):
+   the stored coefficient is within a few ulps, relative to the sum of magnitudes, of the EXACT value the text denotes.
+   c01_parse_float_coeff_error is on any term list whose power-k coefficients are written decimals;
+   c01_parse_float_coeff_error_src is on the source terms [terms_of src] of the grammar ([src_dterms src k] = the
+   written coefficients of the terms of power k, an omitted coefficient being 1 = dec2float 1 0), so with c01_accept it
+   speaks about the vector returned by parse_simple.  Decimals in the subnormal range are excluded (absolute error there). *)
+From SV Require Import Proofs.Stats Proofs.ParseFloat.
+
+(* the pure-real combination: per-term relative error u, summation error gam relative to the sum of magnitudes *)
+Theorem c01_decimal_sum_combine : forall (A : Type) (f g : A -> R) (u gam s : R) (l : list A),
+  (0 <= u)%R -> (0 <= gam)%R ->
+  (forall a, In a l -> Rabs (f a - g a) <= u * Rabs (g a))%R ->
+  (Rabs (s - Rsum (map f l)) <= gam * Rsum (map (fun a => Rabs (f a)) l))%R ->
+  (Rabs (s - Rsum (map g l)) <= ((1 + u) * (1 + gam) - 1) * Rsum (map (fun a => Rabs (g a)) l))%R.
+Proof. exact @Proofs.ParseFloat.decimal_sum_combine. Qed.
+Check c01_decimal_sum_combine : forall (A : Type) (f g : A -> R) (u gam s : R) (l : list A),
+  (0 <= u)%R -> (0 <= gam)%R ->
+  (forall a, In a l -> Rabs (f a - g a) <= u * Rabs (g a))%R ->
+  (Rabs (s - Rsum (map f l)) <= gam * Rsum (map (fun a => Rabs (f a)) l))%R ->
+  (Rabs (s - Rsum (map g l)) <= ((1 + u) * (1 + gam) - 1) * Rsum (map (fun a => Rabs (g a)) l))%R.
+Print Assumptions c01_decimal_sum_combine.
+
+Theorem c01_parse_float_coeff_error : forall (ts : list (PrimFloat.float * nat)) (k : nat) (ds : list dterm),
+  map fst (filter (fun t => Nat.eqb (snd t) k) ts) = map dcoef ds ->
+  (forall d, In d ds -> dec_ok d) ->
+  (forall j, (j <= List.length ds)%nat ->
+     is_finite (Prim2B (fold_left PrimFloat.add (firstn j (map dcoef ds)) PrimFloat.zero)) = true) ->
+  is_finite (Prim2B (nth k (dense_coeffs ts) n0)) = true /\
+  (Rabs (B2R (Prim2B (nth k (dense_coeffs ts) n0)) - Rsum (map dreal ds))
+    <= ((1 + bpow radix2 (-53)) ^ S (List.length ds) - 1) * Rsum (map dmag ds))%R.
+Proof. exact Proofs.ParseFloat.parse_float_coeff_error. Qed.
+Check c01_parse_float_coeff_error : forall (ts : list (PrimFloat.float * nat)) (k : nat) (ds : list dterm),
+  map fst (filter (fun t => Nat.eqb (snd t) k) ts) = map dcoef ds ->
+  (forall d, In d ds -> dec_ok d) ->
+  (forall j, (j <= List.length ds)%nat ->
+     is_finite (Prim2B (fold_left PrimFloat.add (firstn j (map dcoef ds)) PrimFloat.zero)) = true) ->
+  is_finite (Prim2B (nth k (dense_coeffs ts) n0)) = true /\
+  (Rabs (B2R (Prim2B (nth k (dense_coeffs ts) n0)) - Rsum (map dreal ds))
+    <= ((1 + bpow radix2 (-53)) ^ S (List.length ds) - 1) * Rsum (map dmag ds))%R.
+Print Assumptions c01_parse_float_coeff_error.
+
+Theorem c01_parse_float_coeff_error_src : forall (src : usrc) (k : nat),
+  (forall d, In d (src_dterms src k) -> dec_ok d) ->
+  (forall j, (j <= List.length (src_dterms src k))%nat ->
+     is_finite (Prim2B (fold_left PrimFloat.add (firstn j (map dcoef (src_dterms src k))) PrimFloat.zero)) = true) ->
+  is_finite (Prim2B (nth k (dense_coeffs (@terms_of PrimFloat.float FNum src)) n0)) = true /\
+  (Rabs (B2R (Prim2B (nth k (dense_coeffs (@terms_of PrimFloat.float FNum src)) n0)) - Rsum (map dreal (src_dterms src k)))
+    <= ((1 + bpow radix2 (-53)) ^ S (List.length (src_dterms src k)) - 1) * Rsum (map dmag (src_dterms src k)))%R.
+Proof. exact Proofs.ParseFloat.parse_float_coeff_error_src. Qed.
+Check c01_parse_float_coeff_error_src : forall (src : usrc) (k : nat),
+  (forall d, In d (src_dterms src k) -> dec_ok d) ->
+  (forall j, (j <= List.length (src_dterms src k))%nat ->
+     is_finite (Prim2B (fold_left PrimFloat.add (firstn j (map dcoef (src_dterms src k))) PrimFloat.zero)) = true) ->
+  is_finite (Prim2B (nth k (dense_coeffs (@terms_of PrimFloat.float FNum src)) n0)) = true /\
+  (Rabs (B2R (Prim2B (nth k (dense_coeffs (@terms_of PrimFloat.float FNum src)) n0)) - Rsum (map dreal (src_dterms src k)))
+    <= ((1 + bpow radix2 (-53)) ^ S (List.length (src_dterms src k)) - 1) * Rsum (map dmag (src_dterms src k)))%R.
+Print Assumptions c01_parse_float_coeff_error_src.
+
+(* the definitions used above, pinned by their unfoldings *)
+Theorem c01_dterm_defs : forall (neg : bool) (m e : Z),
+  dcoef (neg, m, e) = (if neg then PrimFloat.opp (dec2float m e) else dec2float m e) /\
+  dreal (neg, m, e) = (if neg then - dec_val m e else dec_val m e)%R /\
+  dmag (neg, m, e) = dec_val m e /\
+  (dec_ok (neg, m, e) <->
+     m = 0%Z \/ ((0 < m)%Z /\ (bpow radix2 (-1022) <= dec_val m e <= bpow radix2 1023)%R)).
+Proof. exact Proofs.ParseFloat.dterm_defs. Qed.
+Check c01_dterm_defs : forall (neg : bool) (m e : Z),
+  dcoef (neg, m, e) = (if neg then PrimFloat.opp (dec2float m e) else dec2float m e) /\
+  dreal (neg, m, e) = (if neg then - dec_val m e else dec_val m e)%R /\
+  dmag (neg, m, e) = dec_val m e /\
+  (dec_ok (neg, m, e) <->
+     m = 0%Z \/ ((0 < m)%Z /\ (bpow radix2 (-1022) <= dec_val m e <= bpow radix2 1023)%R)).
+Print Assumptions c01_dterm_defs.
+
+(* the no-overflow premise is a computation on the primitive floats *)
+Theorem c01_prefixes_finite_by_compute : forall l : list PrimFloat.float,
+  forallb (fun j => PrimFloat.is_finite (fold_left PrimFloat.add (firstn j l) PrimFloat.zero))
+          (seq 0 (S (List.length l))) = true ->
+  forall j, (j <= List.length l)%nat ->
+    is_finite (Prim2B (fold_left PrimFloat.add (firstn j l) PrimFloat.zero)) = true.
+Proof. exact Proofs.ParseFloat.prefixes_finite_by_compute. Qed.
+Check c01_prefixes_finite_by_compute : forall l : list PrimFloat.float,
+  forallb (fun j => PrimFloat.is_finite (fold_left PrimFloat.add (firstn j l) PrimFloat.zero))
+          (seq 0 (S (List.length l))) = true ->
+  forall j, (j <= List.length l)%nat ->
+    is_finite (Prim2B (fold_left PrimFloat.add (firstn j l) PrimFloat.zero)) = true.
+Print Assumptions c01_prefixes_finite_by_compute.
+
+(* non-vacuity: "0.1x + 0.2x - 3.25" (Proofs.ParseFloat.ex_src) is the rendering of a well-formed source, is parsed to
+   [-3.25; 0x1.3333333333334p-2] (the coefficient of x is fl(fl(0.1)+fl(0.2))), its written coefficients of power 1 are
+   (+,1,-1), (+,2,-1) and of power 0 (-,325,-2); all hypotheses of c01_parse_float_coeff_error_src hold for k = 0, 1;
+   the resulting instance for the coefficient of x *)
+Example c01_parse_float_ex :
+  wf_src ex_src = true /\ strip_ws (str_of "0.1x + 0.2x - 3.25") = render false 120 ex_src /\
+  @parse_simple PrimFloat.float FNum uclass_tab (str_of "0.1x + 0.2x - 3.25")
+    = Ok {| s_coefs := [-3.25; 0x1.3333333333334p-2]%float; s_var := Some 120%N |} /\
+  src_dterms ex_src 1 = [(false, 1%Z, (-1)%Z); (false, 2%Z, (-1)%Z)] /\
+  src_dterms ex_src 0 = [(true, 325%Z, (-2)%Z)] /\
+  nth 1 (dense_coeffs (@terms_of PrimFloat.float FNum ex_src)) n0 = (0x1.3333333333334p-2)%float /\
+  PrimFloat.add (dec2float 1 (-1)) (dec2float 2 (-1)) = (0x1.3333333333334p-2)%float.
+Proof. exact Proofs.ParseFloat.ex_src_parse. Qed.
+Example c01_parse_float_ex_hyps : forall k, (k = 0 \/ k = 1)%nat ->
+  (forall d, In d (src_dterms ex_src k) -> dec_ok d) /\
+  (forall j, (j <= List.length (src_dterms ex_src k))%nat ->
+     is_finite (Prim2B (fold_left PrimFloat.add (firstn j (map dcoef (src_dterms ex_src k))) PrimFloat.zero)) = true).
+Proof. exact Proofs.ParseFloat.ex_src_hyps. Qed.
+Example c01_parse_float_ex_coeff_x :
+  (Rabs (B2R (Prim2B (0x1.3333333333334p-2)%float) - (dec_val 1 (-1) + (dec_val 2 (-1) + 0)))
+    <= ((1 + bpow radix2 (-53)) ^ 3 - 1) * (dec_val 1 (-1) + (dec_val 2 (-1) + 0)))%R.
+Proof. exact Proofs.ParseFloat.ex_src_coeff_x. Qed.
